@@ -1,11 +1,12 @@
-(* Proofs about the list level of stagemaker's add-files handling (Model/StageWild.v):
-   the glob matcher against its relational specification, the name sets of the list
-   operations, lstat on a well-formed tree listing, and what a wildcard line adds to /
-   removes from the list. *)
 From LC Require Import Lib.Bytes Lib.Lex Lib.Fields Lib.PathM Gen.Consts Model.StageLine Model.StageWild.
 From Coq Require Import ZifyBool ZifyNat ZifyN.
 Open Scope N_scope.
 Open Scope list_scope.
+
+(* Proofs about the list level of stagemaker's add-files handling (Model/StageWild.v):
+   the glob matcher against its relational specification, the name sets of the list
+   operations, lstat on a well-formed tree listing, and what a wildcard line adds to /
+   removes from the list. *)
 
 Definition names (l : flist) : list bytes := map l_name l.
 
@@ -164,3 +165,253 @@ Proof.
   - intros ->. apply Hne. rewrite <- Hc. reflexivity.
   - rewrite <- Hc at 1. unfold pjoin. now apply join_pth; intros ->; apply Hne; rewrite <- Hc.
 Qed.
+
+(* ------------------------------------------------------------------ pathsplit / pathdir *)
+Lemma lss_noslash b : nosep sl b -> forall cur acc f,
+  last_slash_split b cur acc f = (f, acc, rev cur ++ b).
+Proof.
+  induction b as [|c r IH]; intros Hn cur acc f; cbn [last_slash_split].
+  - now rewrite app_nil_r.
+  - destruct (Ascii.eqb c sl) eqn:E.
+    + apply Ascii.eqb_eq in E. subst. exfalso. apply Hn. now left.
+    + rewrite IH by (intro; apply Hn; now right). cbn [rev]. now rewrite <- app_assoc.
+Qed.
+
+Lemma lss_app b a : forall cur acc f, exists acc',
+  last_slash_split (a ++ sl :: b) cur acc f = last_slash_split b [] acc' true
+  /\ rev acc' = rev acc ++ rev cur ++ a ++ [sl].
+Proof.
+  induction a as [|c a IH]; intros cur acc f.
+  - cbn [app last_slash_split]. rewrite Ascii.eqb_refl. eexists; split; [reflexivity|].
+    cbn [rev]. rewrite rev_app_distr. now rewrite <- app_assoc.
+  - cbn [app last_slash_split]. destruct (Ascii.eqb c sl) eqn:E.
+    + destruct (IH [] (c :: cur ++ acc) true) as (acc' & E1 & E2). exists acc'. split; [exact E1|].
+      rewrite E2. cbn [rev app]. rewrite rev_app_distr. rewrite <- !app_assoc. reflexivity.
+    + destruct (IH (c :: cur) acc f) as (acc' & E1 & E2). exists acc'. split; [exact E1|].
+      rewrite E2. cbn [rev app]. rewrite <- !app_assoc. reflexivity.
+Qed.
+
+Lemma pathsplit_snoc a b : nosep sl b -> pathsplit (a ++ sl :: b) = (a ++ [sl], b).
+Proof.
+  intros Hn. unfold pathsplit. destruct (lss_app b a [] [] false) as (acc' & E1 & E2).
+  rewrite E1, lss_noslash by assumption. rewrite E2. reflexivity.
+Qed.
+
+Lemma clean_pth_slash cs : cs <> [] -> Forall plain cs -> clean (pth cs ++ [sl]) = pth cs.
+Proof.
+  intros Hne HP.
+  assert (E : pth cs ++ [sl] = pth (cs ++ [[]])) by now rewrite pth_snoc.
+  rewrite E. assert (Hne2 : cs ++ [[]] <> []) by (destruct cs; discriminate).
+  rewrite <- (join_pth (cs ++ [[]])) by assumption. rewrite clean_rooted.
+  rewrite (join_pth (cs ++ [[]])) by assumption.
+  rewrite psplit_pth; [|assumption|].
+  2:{ apply Forall_app; split; [now apply plain_noslash|]. constructor; [intros []|constructor]. }
+  cbn [fold_left]. change (stepc true [] []) with (@nil bytes).
+  rewrite fold_left_app, (fold_plain true cs HP). cbn [fold_left].
+  change (stepc true (rev cs ++ []) []) with (rev cs ++ []).
+  rewrite app_nil_r, rev_involutive. unfold pjoin. now apply join_pth.
+Qed.
+
+Lemma pathdir_pth_snoc cs b : cs <> [] -> Forall plain cs -> plain b ->
+  pathdir (pth (cs ++ [b])) = pth cs.
+Proof.
+  intros Hne HP (_ & _ & _ & Hb). unfold pathdir. rewrite pth_snoc, pathsplit_snoc by exact Hb.
+  cbn [fst]. now apply clean_pth_slash.
+Qed.
+
+Lemma pathdir_pth_one b : plain b -> pathdir (pth [b]) = [sl].
+Proof.
+  intros (_ & _ & _ & Hb). unfold pathdir. change (pth [b]) with ([] ++ sl :: b ++ []).
+  rewrite app_nil_r, pathsplit_snoc by exact Hb. reflexivity.
+Qed.
+
+Lemma pth_not_root cs : cs <> [] -> Forall plain cs -> pth cs <> [sl].
+Proof.
+  intros Hne HP. destruct cs as [|c r]; [congruence|]. inversion HP as [|? ? (Hc & _) _]; subst.
+  destruct c as [|x c]; [congruence|]. rewrite pth_cons. discriminate.
+Qed.
+
+(* ------------------------------------------------------------------ walk *)
+Lemma walk_one t cur c :
+  walk t cur [c] = match tfind t (cur ++ sl :: c) with Some e => LFound e | None => LAbsent end.
+Proof. reflexivity. Qed.
+Lemma walk_cons t cur c c2 r :
+  walk t cur (c :: c2 :: r) =
+  match tfind t (cur ++ sl :: c) with
+  | None => LAbsent
+  | Some e => if te_kind e =? 1 then walk t (cur ++ sl :: c) (c2 :: r)
+              else if te_kind e =? 2 then LNotDir else LOod
+  end.
+Proof. reflexivity. Qed.
+
+Lemma walk_snoc t b : forall cs cur d, cs <> [] -> walk t cur cs = LFound d -> te_kind d = 1 ->
+  walk t cur (cs ++ [b]) =
+  match tfind t (cur ++ pth cs ++ sl :: b) with Some e => LFound e | None => LAbsent end.
+Proof.
+  induction cs as [|c r IH]; intros cur d Hne Hw Hk; [congruence|].
+  destruct r as [|c2 r'].
+  - rewrite walk_one in Hw. cbn [app]. rewrite walk_cons.
+    destruct (tfind t (cur ++ sl :: c)) as [e|]; [|discriminate]. injection Hw as ->.
+    rewrite Hk, N.eqb_refl, walk_one.
+    replace (cur ++ pth [c] ++ sl :: b) with ((cur ++ sl :: c) ++ sl :: b); [reflexivity|].
+    rewrite pth_cons. cbn [pth flat_map]. rewrite app_nil_r, <- app_assoc. reflexivity.
+  - change ((c :: c2 :: r') ++ [b]) with (c :: c2 :: (r' ++ [b])).
+    rewrite walk_cons in Hw |- *.
+    destruct (tfind t (cur ++ sl :: c)) as [e|]; [|discriminate].
+    destruct (te_kind e =? 1); [|destruct (te_kind e =? 2); discriminate].
+    change (c2 :: r' ++ [b]) with ((c2 :: r') ++ [b]).
+    rewrite (IH (cur ++ sl :: c) d) by (auto; discriminate).
+    replace ((cur ++ sl :: c) ++ pth (c2 :: r') ++ sl :: b) with (cur ++ pth (c :: c2 :: r') ++ sl :: b);
+      [reflexivity|].
+    rewrite (pth_cons c). change (sl :: c ++ pth (c2 :: r')) with ((sl :: c) ++ pth (c2 :: r')). rewrite <- !app_assoc. reflexivity.
+Qed.
+
+Lemma tentry_ok_parts t e : tentry_ok t e = true ->
+  clean (te_path e) = te_path e /\ is_abs (te_path e) = true /\ te_path e <> [sl]
+  /\ has_dotdot (te_path e) = false /\ path_count t (te_path e) = 1%nat
+  /\ (pathdir (te_path e) = [sl]
+      \/ exists pe, tfind t (pathdir (te_path e)) = Some pe /\ te_kind pe = 1).
+Proof.
+  unfold tentry_ok. change c_slash with sl. rewrite !andb_true_iff, !negb_true_iff.
+  intros ((((((H1 & H2) & H3) & H4) & H5) & _) & H7).
+  apply beq_true in H1. apply beq_false in H3. apply Nat.eqb_eq in H5.
+  repeat split; auto.
+  apply orb_true_iff in H7 as [H7|H7]; [left; now apply beq_true|right].
+  destruct (tfind t (pathdir (te_path e))) as [pe|]; [|discriminate].
+  exists pe. split; [reflexivity|]. now apply N.eqb_eq.
+Qed.
+
+Lemma walk_found t : tree_ok t = true -> forall n cs e, (length cs <= n)%nat -> cs <> [] ->
+  Forall plain cs -> In e t -> te_path e = pth cs -> walk t [] cs = LFound e.
+Proof.
+  intros Hok. induction n as [|n IH]; intros cs e Hlen Hne HP Hin Hp.
+  - destruct cs; [congruence|cbn [length] in Hlen; lia].
+  - destruct (exists_last Hne) as (cs' & b & ->).
+    apply Forall_app in HP as [HP' Hb]. inversion Hb as [|? ? Hb' _]; subst.
+    assert (Hte : tentry_ok t e = true) by (unfold tree_ok in Hok; rewrite forallb_forall in Hok; auto).
+    apply tentry_ok_parts in Hte as (_ & _ & _ & _ & Hcnt & Hpar).
+    destruct cs' as [|c0 r0].
+    + cbn [app] in *. rewrite walk_one. cbn [app].
+      replace (sl :: b) with (te_path e); [now rewrite tfind_unique|].
+      rewrite Hp, pth_cons. cbn [pth flat_map]. now rewrite app_nil_r.
+    + set (cs' := c0 :: r0) in *. assert (Hne' : cs' <> []) by discriminate.
+      rewrite Hp, pathdir_pth_snoc in Hpar by assumption.
+      destruct Hpar as [Hpar|(pe & Hf & Hk)]; [exfalso; revert Hpar; now apply pth_not_root|].
+      apply tfind_some in Hf as Hf'. destruct Hf' as [Hpin Hpp].
+      assert (Hw : walk t [] cs' = LFound pe).
+      { apply IH; auto. rewrite app_length in Hlen. cbn [length] in Hlen. lia. }
+      rewrite (walk_snoc t b cs' [] pe Hne' Hw Hk). cbn [app].
+      rewrite <- pth_snoc, <- Hp. now rewrite tfind_unique.
+Qed.
+
+(* in a well-formed tree listing every listed path is found, as itself *)
+Theorem lstat_found : forall t e, tree_ok t = true -> In e t -> lstat t (te_path e) = LFound e.
+Proof.
+  intros t e Hok Hin.
+  assert (Hte : tentry_ok t e = true) by (unfold tree_ok in Hok; rewrite forallb_forall in Hok; auto).
+  apply tentry_ok_parts in Hte as (Hc & Ha & Hne & Hdd & _ & _).
+  destruct (clean_abs_shape _ Hc Ha Hne) as (cs & Hcs & HP & Hp).
+  unfold lstat. rewrite Hdd, Hc. rewrite Hp at 1. rewrite comps_of_pth by assumption.
+  destruct cs as [|c r]; [congruence|]. eapply walk_found; eauto.
+Qed.
+
+(* ------------------------------------------------------------------ glob / expand *)
+Lemma children_in t dir c : In c (children t dir) -> In c t.
+Proof. unfold children. intros H. apply filter_In in H. tauto. Qed.
+
+(* what a glob returns: exactly the children of the (literal) directory whose base name matches *)
+Theorem glob_members : forall t name ms, glob t name = GOk ms ->
+  forall m, In m ms -> exists e, In e t /\ te_path e = m.
+Proof.
+  intros t name ms H m Hm. unfold glob in H.
+  destruct (has_dotdot name); [discriminate|].
+  destruct (pathsplit (clean name)) as [dpart fpart].
+  destruct (gtokens dpart) as [| |dp]; destruct (gtokens fpart) as [| |fp]; try discriminate.
+  destruct (glit dp) as [dlit|]; [|discriminate].
+  destruct (lstat t (clean dlit)) as [| |e|]; try discriminate;
+    try (injection H as <-; destruct Hm).
+  destruct (te_kind e =? 1).
+  - injection H as <-. rewrite sort_in in Hm. apply in_map_iff in Hm as (c & Hc & Hin).
+    apply filter_In in Hin as [Hin _]. apply children_in in Hin. eauto.
+  - destruct (te_kind e =? 3); [discriminate|]. injection H as <-. destruct Hm.
+Qed.
+
+Theorem expand_members : forall t ms, (forall m, In m ms -> exists e, In e t /\ te_path e = m) ->
+  forall m, In m (expand t ms) -> exists e, In e t /\ te_path e = m.
+Proof.
+  intros t ms Hms m Hm. unfold expand in Hm. apply in_flat_map in Hm as (m0 & Hm0 & Hm).
+  destruct Hm as [<-|Hm]; [now apply Hms|].
+  destruct (tfind t m0) as [e0|]; [|destruct Hm].
+  destruct (te_kind e0 =? 1); [|destruct Hm].
+  apply in_map_iff in Hm as (c & Hc & Hin). apply filter_In in Hin as [Hin _]. eauto.
+Qed.
+
+(* ------------------------------------------------------------------ omit *)
+Lemma fold_del_names ms : forall l x,
+  In x (names (fold_left fl_del ms l)) <-> (In x (names l) /\ ~ In x ms).
+Proof.
+  induction ms as [|a ms IH]; intros l x; cbn [fold_left In].
+  - tauto.
+  - rewrite IH, fl_del_names. intuition congruence.
+Qed.
+
+(* omit with a wildcard removes exactly the matches from the list *)
+Theorem wildcard_omit : forall t l e ms, e_wild e = true -> glob t (e_name e) = GOk ms ->
+  exists l', remove_files t l e = AOk l' /\
+             forall x, In x (names l') <-> (In x (names l) /\ ~ In x ms).
+Proof.
+  intros t l e ms Hw Hg. unfold remove_files. rewrite Hw, Hg.
+  eexists; split; [reflexivity|]. intros x. apply fold_del_names.
+Qed.
+
+(* ------------------------------------------------------------------ add *)
+Lemma add_single_found t l e te : lstat t (e_name e) = LFound te -> e_ltype e = V_FileType_none ->
+  exists ty tg, add_single t l e = AOk (fl_set l (MkL (e_name e) ty tg)).
+Proof.
+  intros Hl Ht. unfold add_single. rewrite Hl, Ht, N.eqb_refl. eexists; eexists; reflexivity.
+Qed.
+
+Lemma add_each_ok t e : (forall e0, In e0 t -> lstat t (te_path e0) = LFound e0) ->
+  forall ns, (forall n, In n ns -> exists e0, In e0 t /\ te_path e0 = n) ->
+  forall l, exists l', add_each t l e ns = AOk l' /\
+                       forall x, In x (names l') <-> (In x (names l) \/ In x ns).
+Proof.
+  intros Hls. induction ns as [|n r IH]; intros Hns l.
+  - exists l. split; [reflexivity|]. intros x. cbn [In]. tauto.
+  - cbn [add_each].
+    destruct (Hns n (or_introl eq_refl)) as (e0 & Hin & Hp).
+    set (e1 := set_ltype (set_name e n (e_wild e)) V_FileType_none).
+    assert (Hl : lstat t (e_name e1) = LFound e0) by (cbn [e1 e_name set_ltype set_name]; rewrite <- Hp; auto).
+    destruct (add_single_found t l e1 e0 Hl eq_refl) as (ty & tg & ->).
+    change (e_name e1) with n.
+    destruct (IH (fun n' Hn' => Hns n' (or_intror Hn')) (fl_set l (MkL n ty tg))) as (l' & -> & Hl').
+    exists l'. split; [reflexivity|]. intros x. rewrite Hl', fl_set_names. cbn [l_name In].
+    intuition congruence.
+Qed.
+
+(* an adding type with a wildcard adds exactly the matches (for type dir: with everything below them) *)
+Theorem wildcard_add : forall t l e ms, tree_ok t = true -> e_wild e = true -> e_source e = [] ->
+  glob t (e_name e) = GOk ms ->
+  let ms' := if e_ltype e =? V_FileType_dir then expand t ms else ms in
+  ms' <> [] ->
+  exists l', add_files t l e = AOk l' /\
+             forall x, In x (names l') <-> (In x (names l) \/ In x ms').
+Proof.
+  intros t l e ms Hok Hw Hs Hg ms' Hne.
+  assert (Hms : forall m, In m ms' -> exists e0, In e0 t /\ te_path e0 = m).
+  { subst ms'. destruct (e_ltype e =? V_FileType_dir).
+    - apply expand_members. eapply glob_members; eauto.
+    - eapply glob_members; eauto. }
+  unfold add_files. rewrite Hs, Hw, Hg. fold ms'.
+  destruct ms' as [|m0 r0] eqn:E; [congruence|]. rewrite <- E in *.
+  apply add_each_ok; [|exact Hms]. intros e0 Hin. now apply lstat_found.
+Qed.
+
+Print Assumptions gmatch_spec.
+Print Assumptions fl_del_names.
+Print Assumptions fl_set_names.
+Print Assumptions lstat_found.
+Print Assumptions glob_members.
+Print Assumptions expand_members.
+Print Assumptions wildcard_omit.
+Print Assumptions wildcard_add.
